@@ -107,6 +107,18 @@ def run_case(case):
         elif kind == "csv":
             _, oi, exps, prefix, files, faulted = item
             if faulted:
+                # an injected I/O error may cost the file it hit (the function reports it and goes on); it must not cost the
+                # files of the other experiments of the same call: at most one file per fired fault is missing or incomplete
+                nbad = 0
+                for i, e in enumerate(exps):
+                    name = "%s_%d.csv" % (prefix, i)
+                    T = len(next(iter(e.values()))) if e else 0
+                    rows = list(csv.reader(io.StringIO(files[name]))) if name in files else None
+                    good = rows is not None and len(rows) == T + 1 and all(c in rows[0] for c in ucols if c in e)
+                    nbad += 0 if good else 1
+                if isinstance(faulted, int) and not isinstance(faulted, bool) and nbad > faulted:
+                    viols.append(("C20/csv/io-error-loses-other-experiments", "op %d: %d injected I/O error(s), but %d of %d experiment files are missing or incomplete (files: %s)" % (
+                        oi, faulted, nbad, len(exps), sorted(files))))
                 continue
             checked += bool(exps)
             for i, e in enumerate(exps):
